@@ -23,6 +23,10 @@ import GqlVerif.Proofs.C01NestedAbsW
 import GqlVerif.Proofs.C01NestedAbsJ
 import GqlVerif.Proofs.C01AliasFragW
 import GqlVerif.Proofs.C01AliasFragJ
+import GqlVerif.Proofs.C01NestedGenW
+import GqlVerif.Proofs.C01NestedGenJ
+import GqlVerif.Proofs.C01NestedGenXW
+import GqlVerif.Proofs.C01NestedGenXJ
 open GqlVerif.C01
 #print axioms accepts_mono
 #print axioms conforming_int_accepted
@@ -348,3 +352,47 @@ open GqlVerif.C01
 #print axioms GqlVerif.C01AF.af_roundtrip
 #print axioms GqlVerif.C01AF.aliasfrag_keys_needed
 #print axioms GqlVerif.C01AF.aliasfrag_rust_needed
+-- NestedGenOp / NestedGen2Op: nested fragments at abstract positions that also have interface-level fields / inline fragments with fields of their own (Proofs/C01NestedGen*.lean, P47)
+#print axioms GqlVerif.C01NG.nestedgen_items_shape
+#print axioms GqlVerif.C01NG.nestedgen_accepts
+#print axioms GqlVerif.C01NG.nestedgen_lossless
+#print axioms GqlVerif.C01NG.nestedgen_roundtrip
+#print axioms GqlVerif.C01NG.nestedGenOp_of_nestedAbsOp
+#print axioms GqlVerif.C01NG.bodyItemsA_eq_A
+#print axioms GqlVerif.C01NG.conformsLooseA_eq_A
+#print axioms GqlVerif.C01NG.canonSelA_eq_A
+#print axioms GqlVerif.C01NG.nestedGenKeysOk_eq_A
+#print axioms GqlVerif.C01NG.nestedGenSideOk_eq_A
+#print axioms GqlVerif.C01NG.absTagOk_eq_A
+#print axioms GqlVerif.C01NG.nestedgen_roundtrip_on_nestedAbsOp
+#print axioms GqlVerif.C01NG.ng_class
+#print axioms GqlVerif.C01NG.ng_not_A
+#print axioms GqlVerif.C01NG.ng_items_shape
+#print axioms GqlVerif.C01NG.ng_accepts
+#print axioms GqlVerif.C01NG.ng_roundtrip_canon
+#print axioms GqlVerif.C01NG.ng_roundtrip_eval
+#print axioms GqlVerif.C01NG.ng_canon_value
+#print axioms GqlVerif.C01NG.nestedgen_poskeys_needed
+#print axioms GqlVerif.C01NX.nestedgen2_items_shape
+#print axioms GqlVerif.C01NX.nestedgen2_accepts
+#print axioms GqlVerif.C01NX.nestedgen2_lossless
+#print axioms GqlVerif.C01NX.nestedgen2_roundtrip
+#print axioms GqlVerif.C01NX.nestedGen2Op_of_nestedGenOp
+#print axioms GqlVerif.C01NX.nestedGen2Op_of_nestedAbsOp
+#print axioms GqlVerif.C01NX.bodyItemsA_eq_G
+#print axioms GqlVerif.C01NX.conformsLooseA_eq_G
+#print axioms GqlVerif.C01NX.canonSelA_eq_G
+#print axioms GqlVerif.C01NX.nestedGen2KeysOk_eq_G
+#print axioms GqlVerif.C01NX.nestedGen2SideOk_eq_G
+#print axioms GqlVerif.C01NX.absTagOk_eq_G
+#print axioms GqlVerif.C01NX.nestedgen2_roundtrip_on_nestedGenOp
+#print axioms GqlVerif.C01NX.nestedgen2_roundtrip_on_nestedAbsOp
+#print axioms GqlVerif.C01NX.nx_class
+#print axioms GqlVerif.C01NX.nx_not_G
+#print axioms GqlVerif.C01NX.nx_not_A
+#print axioms GqlVerif.C01NX.nx_items_shape
+#print axioms GqlVerif.C01NX.nx_accepts
+#print axioms GqlVerif.C01NX.nx_roundtrip_canon
+#print axioms GqlVerif.C01NX.nx_roundtrip_eval
+#print axioms GqlVerif.C01NX.nx_canon_value
+#print axioms GqlVerif.C01NX.nestedgen2_overlap_needed
